@@ -130,6 +130,10 @@ var (
 	gateWatch sync.Map // *formula.Runner -> func() blocking gate
 )
 
+// the resolve hook is installed before any goroutine of the driver runs (a lazily installed hook would itself
+// be a data race between the driver's goroutines)
+func init() { installHooks() }
+
 func installHooks() {
 	hookOnce.Do(func() {
 		nop := func() {}
